@@ -761,6 +761,131 @@ def _restore_comp_names(nf: ast.AST, comp_names) -> None:
             x.id = comp_names[int(x.id[2:])]
 
 
+# ---------------------------------------------------------------------------------------------------------------
+# partial rename restoration: a unit that differs from its baseline by more than surface edits may still have had
+# its locals renamed.  Statements that are unchanged up to local names vote for the name pairs they imply; a
+# unanimous, injective, capture-free mapping is applied to the whole unit.  Renaming consistently is an
+# alpha-conversion: the program analysed afterwards is the program that was written.
+# ---------------------------------------------------------------------------------------------------------------
+_SIMPLE_STMT = (ast.Assign, ast.AugAssign, ast.AnnAssign, ast.Expr, ast.Return, ast.Raise, ast.Assert, ast.Delete)
+
+
+def _stmt_fingerprints(fn: ast.AST) -> list:
+    """[(digest, [local names in order of first occurrence])] for every statement of the unit: simple statements as a
+    whole, compound statements by their header, nested functions by name and parameters"""
+    locals_ = _unit_locals(fn)
+    out = []
+
+    def fp(parts, kind=""):
+        order: list[str] = []
+        index: dict[str, int] = {}
+        saved = []
+        for part in parts:
+            for n, attr in _occurrences_in(part, locals_):
+                v = getattr(n, attr)
+                if v not in index:
+                    index[v] = len(order)
+                    order.append(v)
+                saved.append((n, attr, v))
+                setattr(n, attr, f"\x00{index[v]}")
+        try:
+            dump = kind + ":" + "|".join(ast.dump(x, annotate_fields=False, include_attributes=False) if isinstance(x, ast.AST) else repr(x) for x in parts)
+        finally:
+            for n, attr, v in saved:
+                setattr(n, attr, v)
+        if order:
+            out.append((hashlib.sha1(dump.encode()).hexdigest()[:16], order))
+
+    stack = list(reversed(fn.body))
+    while stack:
+        st = stack.pop()
+        if isinstance(st, _SIMPLE_STMT):
+            if isinstance(st, ast.Expr) and isinstance(st.value, ast.Constant):
+                continue
+            fp([st])
+        elif isinstance(st, (ast.For, ast.AsyncFor)):
+            fp([st.target, st.iter], "for")
+        elif isinstance(st, (ast.While, ast.If)):
+            fp([st.test], type(st).__name__)
+        elif isinstance(st, (ast.With, ast.AsyncWith)):
+            fp([i_.context_expr for i_ in st.items] + [i_.optional_vars for i_ in st.items if i_.optional_vars is not None], "with")
+        elif isinstance(st, (ast.FunctionDef, ast.AsyncFunctionDef)):
+            hdr = ast.Name(id=st.name, ctx=ast.Load())
+            args = [ast.Name(id=a.arg, ctx=ast.Load()) for a in _all_args(st.args)]
+            fp([hdr] + args, "def")
+        for fld in ("finalbody", "orelse", "handlers", "body"):
+            sub = getattr(st, fld, None)
+            if isinstance(sub, list):
+                for x in reversed(sub):
+                    if isinstance(x, ast.ExceptHandler):
+                        stack.extend(reversed(x.body))
+                    elif isinstance(x, ast.stmt):
+                        stack.append(x)
+    return out
+
+
+def _occurrences_in(node: ast.AST, locals_: set[str]):
+    stack = [node]
+    while stack:
+        n = stack.pop()
+        if isinstance(n, ast.Name) and n.id in locals_:
+            yield n, "id"
+        elif isinstance(n, ast.arg) and n.arg in locals_:
+            yield n, "arg"
+        stack.extend(reversed(list(ast.iter_child_nodes(n))))
+
+
+def _infer_renames(fn: ast.AST, base_fps: list) -> dict:
+    from collections import Counter, defaultdict
+
+    cur = _stmt_fingerprints(fn)
+    by_b, by_c = defaultdict(list), defaultdict(list)
+    for d, names in base_fps:
+        by_b[d].append(names)
+    for d, names in cur:
+        by_c[d].append(names)
+    votes: dict[str, Counter] = defaultdict(Counter)
+    for d, cl in by_c.items():
+        bl = by_b.get(d)
+        if not bl or len(bl) != len(cl):
+            continue
+        w = 2 if len(cl) == 1 else 1
+        for cn_, bn_ in zip(cl, bl):
+            if len(cn_) != len(bn_):
+                continue
+            for c_, b_ in zip(cn_, bn_):
+                votes[c_][b_] += w
+    locals_ = _unit_locals(fn)
+    params = {a.arg for a in _all_args(fn.args)}
+    mapping = {}
+    for c_, cnt in votes.items():
+        if len(cnt) != 1:
+            continue
+        (b_, w), = cnt.items()
+        if w >= 2 and c_ != b_ and b_ not in params:
+            mapping[c_] = b_
+    # injective
+    targets = Counter(mapping.values())
+    mapping = {c_: b_ for c_, b_ in mapping.items() if targets[b_] == 1}
+    # capture-free: the new name is not a local that stays
+    changed = True
+    while changed:
+        changed = False
+        for c_, b_ in list(mapping.items()):
+            if b_ in locals_ and b_ not in mapping:
+                del mapping[c_]
+                changed = True
+    return mapping
+
+
+def _apply_renames(fn: ast.AST, mapping: dict) -> None:
+    for n, attr in list(_occurrences(fn, set(mapping))):
+        if attr == "names":
+            n.names = [mapping.get(x, x) for x in n.names]
+        else:
+            setattr(n, attr, mapping.get(getattr(n, attr), getattr(n, attr)))
+
+
 def derename(rel: str, tree: ast.Module) -> list[str]:
     """Rewrite units that equal their baseline up to surface edits into the baseline's surface form, in place.
     Returns the list of units rewritten."""
@@ -774,6 +899,12 @@ def derename(rel: str, tree: ast.Module) -> list[str]:
             continue  # textually the baseline function: nothing to do (the common case, kept cheap)
         nf, dig, order, variants = normal_form(fn)
         if dig != b["skeleton"] or len(order) != len(b["names"]) or len(variants) != len(b.get("variants", [])):
+            # not the baseline unit up to surface edits: restore what can be restored, the names of its locals
+            if b.get("stmts"):
+                mp = _infer_renames(fn, b["stmts"])
+                if mp:
+                    _apply_renames(fn, mp)
+                    done.append(q + " (locals)")
             continue
         if order == b["names"] and variants == b["variants"] and nf._comp_names == b.get("comp_names", nf._comp_names):
             continue
@@ -841,7 +972,7 @@ def build_baseline(root: str, package: str = "solvor") -> dict:
                 tree = ast.parse(fh.read())
             for q, fn in units(tree):
                 nf_, dig, order, variants = normal_form(fn)
-                out[f"{rel}::{q}"] = {"skeleton": dig, "names": order, "variants": variants, "raw": _raw(fn), "comp_names": nf_._comp_names, "closures": sorted(x.name for x in fn.body if isinstance(x, (ast.FunctionDef, ast.AsyncFunctionDef)))}
+                out[f"{rel}::{q}"] = {"skeleton": dig, "names": order, "variants": variants, "raw": _raw(fn), "comp_names": nf_._comp_names, "closures": sorted(x.name for x in fn.body if isinstance(x, (ast.FunctionDef, ast.AsyncFunctionDef))), "stmts": [[d_, n_] for d_, n_ in _stmt_fingerprints(fn)]}
             for q, _i, stmt in module_units(tree):
                 nf_, dig, order, variants = normal_form(_wrap(stmt))
                 out[f"{rel}::{q}"] = {"skeleton": dig, "names": order, "variants": variants, "raw": _raw(stmt), "comp_names": nf_._comp_names}
